@@ -43,13 +43,21 @@ Laws(e) ==
          [scheme |-> e.ad_scheme, registry |-> e.ad_registry, repository |-> e.ad_repository, tag |-> e.ad_tag, digest |-> e.ad_digest, path |-> e.ad_path],
        "setters: AddDigest changed something else">> >>
 
+\* For registry references the expected components are fully determined (Docker normalisation).  For a
+\* layout reference the statement fixes scheme, tag and digest and that there is a path; how the path
+\* string itself is normalised (e.g. a trailing slash) is left to the round-trip law.
+ComponentsBad(e, x) ==
+  IF x.kind = "dir"
+  THEN [Parsed(e) EXCEPT !.path = ""] # [Expect(x) EXCEPT !.path = ""] \/ e.path = ""
+  ELSE Parsed(e) # Expect(x)
+
 RefBad(e) ==
   LET x == X(e) IN
   IF ~WellFormed(x) \/ e.s # Str(x) THEN "tooling:scenario"
   ELSE IF e.ok = 1 /\ ~InGrammar(x) THEN "grammar: string outside the grammar accepted"
   ELSE IF e.ok = 0 /\ InGrammar(x) THEN "grammar: string inside the grammar rejected"
   ELSE IF e.ok = 0 THEN ""
-  ELSE First(<< <<Parsed(e) # Expect(x), "components: parsed components differ from the expected normal form">> >> \o Laws(e))
+  ELSE First(<< <<ComponentsBad(e, x), "components: parsed components differ from the expected normal form">> >> \o Laws(e))
 
 HostBad(e) ==
   LET x == X(e) IN
@@ -57,7 +65,9 @@ HostBad(e) ==
   ELSE IF e.ok = 1 /\ ~InGrammar(x) THEN "grammar: host outside the grammar accepted"
   ELSE IF e.ok = 0 /\ InGrammar(x) THEN "grammar: host inside the grammar rejected"
   ELSE IF e.ok = 0 THEN ""
-  ELSE First(<< <<Parsed(e) # Expect(x), "components: NewHost components differ">> >>)
+  ELSE First(<< <<IF x.sc = "none" THEN Parsed(e) # Expect(x)
+                    ELSE [Parsed(e) EXCEPT !.path = ""] # [Expect(x) EXCEPT !.path = ""] \/ e.path = "",
+                   "components: NewHost components differ">> >>)
 
 MutantBad(e) == IF e.ok = 0 THEN "" ELSE First(Laws(e))
 
